@@ -731,6 +731,28 @@ fn hand_families() -> Vec<(Vec<Decl>, Ty)> {
 			],
 			Ty::Named(1, vec![]),
 		),
+		// one unnamed type met several times in one type: two fields of one map type (under both
+		// spellings), of one list type, a map of maps, a list under a map under a list - every
+		// unnamed kind has its own no-cycle mark in the renderer, which must be released
+		(
+			vec![rec(
+				"T0",
+				0,
+				None,
+				vec![
+					f("f0", Ty::HashMap(Box::new(Ty::I32))),
+					f("f1", Ty::HashMap(Box::new(Ty::I32))),
+					f("f2", Ty::BTreeMap(Box::new(Ty::I32))),
+					f("f3", Ty::Vec(Box::new(Ty::String))),
+					f("f4", Ty::Vec(Box::new(Ty::String))),
+					f("f5", Ty::HashMap(Box::new(Ty::HashMap(Box::new(Ty::I32))))),
+					f("f6", Ty::Vec(Box::new(Ty::BTreeMap(Box::new(Ty::Vec(Box::new(Ty::String))))))),
+					f("f7", Ty::Option(Box::new(Ty::I64))),
+					f("f8", Ty::Option(Box::new(Ty::I64))),
+				],
+			)],
+			Ty::Named(0, vec![]),
+		),
 		// two records with the same unqualified name - one in a namespace, the other in the null
 		// namespace - as branches of one union enum, in both orders; every variant carries the
 		// fullname of its branch
